@@ -71,7 +71,7 @@ def run(tier):
         vlib.rm(d2)
     sres = snapcheck.validate(PROP, "SnapTrace_C02.cfg", slines, v, drv)
     sst = snapcheck.summarize(sres["stats"])
-    if sst["noncollapsing"] < 100:
+    if not v.violations and sst["noncollapsing"] < 100:      # (statistics are partial once a record has failed)
         raise Broken("vacuous: only %d non-collapsing (record, level) pairs" % sst["noncollapsing"])
     cov["polygon_records"] = len(slines)
     cov["polygon_record_stats"] = sst
